@@ -646,7 +646,8 @@ func c02Find(c *Ctx, cs *C02Case, r *Rng, out *CaseOut, wantSig string) []c02Fai
 			}
 			sig := kind + "|" + dim + "|" + c02Construct(u)
 			if kind == "address-in-output" {
-				sig = kind + "|" + addrClass(base, res)
+				cls := addrClass(base, res)
+				sig = kind + "|" + cls
 			}
 			if seen[sig] || (wantSig != "" && sig != wantSig) {
 				continue
@@ -752,10 +753,20 @@ func addrClass(a, b Res) string {
 	}
 	// undo what later filters commonly do to the printed value (upcase, url_encode, escape)
 	s = strings.ToLower(s)
-	if u, err := url.QueryUnescape(s); err == nil {
+	for i := 0; i < 4; i++ { // (a filter chain may encode more than once: "%255B" is "[" encoded twice)
+		u, err := url.QueryUnescape(s)
+		if err != nil || u == s {
+			break
+		}
 		s = u
 	}
-	s = html.UnescapeString(s)
+	for i := 0; i < 3; i++ {
+		u := html.UnescapeString(s)
+		if u == s {
+			break
+		}
+		s = u
+	}
 	loc := looseAddr.FindStringIndex(s)
 	if loc == nil {
 		return where + "|pointer-inside-fmt-composite" // mangled beyond recognition; established by addressOnly
